@@ -62,15 +62,16 @@ theorem finalizeMessage_calm (env : Env) (m : Msg) : CalmFrom (finalizeMessage e
     by_cases hn : n ≤ 0
     · simp [hn, Calm, hc1]
     · have hne := disc_ne_awaiting hc1
-      have h2 := (persistInbound_sil m).out { c1 with lastTime := env.now }
-      rcases hp : persistInbound m { c1 with lastTime := env.now } with ⟨r2, c2, e2⟩
+      have hle : ¬ c1.state > st_DISCONNECTED_BROKEN_CONN := Nat.not_lt.mpr (isDisc_le hc1)
+      have h2 := (persistInbound_sil m).out c1
+      rcases hp : persistInbound m c1 with ⟨r2, c2, e2⟩
       rw [hp] at h2
       obtain ⟨he2, hs2⟩ := h2
       have he2 : e2 = [] := he2
       have hs2 : c2.state = c1.state := hs2
       subst he2
       have hc2 : isDisc c2.state = true := by rw [hs2]; exact hc1
-      simp [hn, Calm, bind, M.bind', hne, hp, hc2]
+      simp [hn, Calm, bind, M.bind', hne, hle, hp, hc2]
 
 theorem swallow_QS {α : Type} {G : α → Prop} (d : α) (hd : G d) {x : M α} (hx : QS G x) :
     QS G (swallow d x) := by
